@@ -49,3 +49,52 @@ func VerifH_C02_AssembleFrame(len0, lenA, lenB, nparts int) {
 	verifapi.Assert(pos == len(out), "nothing else in the frame")
 	verifapi.Cover(true, "checked")
 }
+
+// ---- partition size limits (emitFrame) ----
+
+var vLimLen0, vLimLenA, vLimParts int
+
+func vStubPartition0(enc *VP8Encoder) []byte {
+	b := make([]byte, vLimLen0)
+	if vLimLen0 > 0 {
+		b[0], b[vLimLen0-1] = verifapi.U8("p0"), verifapi.U8("p0")
+	}
+	return b
+}
+
+func vStubTokenPartitions(enc *VP8Encoder) [][]byte {
+	var parts [][]byte
+	for i := 0; i < vLimParts; i++ {
+		n := 3
+		if i == 0 {
+			n = vLimLenA
+		}
+		parts = append(parts, make([]byte, n))
+	}
+	return parts
+}
+
+// VerifH_C02_EmitFrameLimits: emitFrame either returns an error or a frame whose size fields hold the
+// true partition sizes: the first partition's size must fit the 19 bits of the frame tag and every token
+// partition but the last the 24 bits of its table entry (the partition writers are stubs returning
+// buffers of the given lengths).
+func VerifH_C02_EmitFrameLimits(len0, lenA, nparts int) {
+	enc := &VP8Encoder{width: int(verifapi.U16("w")&0x3fff) | 1, height: int(verifapi.U16("h")&0x3fff) | 1}
+	vLimLen0, vLimLenA, vLimParts = len0, lenA, nparts
+	out, err := enc.emitFrame()
+	if err != nil {
+		verifapi.Cover(true, "oversized partition refused")
+		verifapi.Assert(len0 >= 1<<19 || (nparts > 1 && lenA >= 1<<24), "an error only when a size does not fit its field")
+		return
+	}
+	verifapi.Cover(true, "frame emitted")
+	tag := uint32(out[0]) | uint32(out[1])<<8 | uint32(out[2])<<16
+	verifapi.Assert(int(tag>>5) == len0, "first-partition length field equals the partition's length")
+	if nparts > 1 {
+		p := 10 + len0
+		sz := int(out[p]) | int(out[p+1])<<8 | int(out[p+2])<<16
+		verifapi.Assert(sz == lenA, "token-partition size field equals the partition's length")
+	}
+	total := 10 + len0 + 3*(nparts-1) + lenA + 3*(nparts-1)
+	verifapi.Assert(len(out) == total, "frame length is header + partitions")
+}
